@@ -5,5 +5,6 @@ set -e
 cd "$(dirname "$0")"
 export GOFLAGS=-mod=mod GOPROXY=off GOSUMDB=off GOTOOLCHAIN=local CGO_ENABLED=0
 ( cd harness && go build -tags verif -o /dev/null ./cmd/vharness )
-( cd lean && lake build AaVerif driver )
+props=$(cd lean/AaVerif/Props && ls C*.lean | sed 's/\.lean$//; s/^/AaVerif.Props./' | tr '\n' ' ')
+( cd lean && lake build AaVerif driver $props )
 echo setup-ok
